@@ -503,6 +503,10 @@ def execute(code, ch, modules=None):
     return obs
 
 
+class TreeTooLarge(RuntimeError):
+    pass
+
+
 class Truth(object):
     __slots__ = ('reach', 'unbound', 'reached', 'nexec', 'nodes', 'errors')
 
@@ -541,5 +545,5 @@ def ground_truth(text, mode, modules=None, max_exec=20000):
 
     t.nexec, left = e1.explore(lambda ch: execute(code, ch, modules), bound=None, on_exec=on_exec, max_exec=max_exec)
     if left:
-        raise RuntimeError('execution tree larger than %d: %s' % (max_exec, text))
+        raise TreeTooLarge('execution tree larger than %d: %s' % (max_exec, text))
     return t
